@@ -86,8 +86,14 @@ def run(ctx):
         cs = prog.fn(COMPILE_STMT)
         has_loop_controls = "Break" in prog.variants(STMT)
         open_sites = 0
+        def _compiles_statements(path_):
+            if path_ == COMPILE_STMT:
+                return True
+            g_ = prog.fns.get(path_)
+            return g_ is not None and path_.startswith(GEN + "::") and any(
+                "ast::Stmt" in g_.locals[l_].get("s", "") for l_ in range(2, g_.argc + 1))
         for (f, bb, st, callee) in an.child_sites:
-            if callee != COMPILE_STMT:
+            if not _compiles_statements(callee):
                 continue
             # scopes opened since the last Loop push (in this function)
             pend = list(st.pend)
